@@ -776,6 +776,14 @@ def c16_i(ctx):
     for n in st:
         k = exs.term(n.targets[0].slice)
         v = exs.term(n.value)
+        # the value itself, or a copy of it when it is a mapping (C16-j)
+        if v[0] == 'ifexp' and match(v[1], pattern('isinstance(_x, _t)')) is not None and \
+                v[3] == match(v[1], pattern('isinstance(_x, _t)'))['x'] and \
+                match_any(v[2], ('_x.copy()', 'dict(_x)', 'OrderedDict(_x)', 'copy.copy(_x)',
+                                 'copy.deepcopy(_x)')) is not None and \
+                match_any(v[2], ('_x.copy()', 'dict(_x)', 'OrderedDict(_x)', 'copy.copy(_x)',
+                                 'copy.deepcopy(_x)'))['x'] == v[3]:
+            v = v[3]
         if k[0] == 'item' and v[0] == 'item' and k[1] == v[1] and (k[2], v[2]) == (0, 1):
             keys.add(show(k[1])[:60])
     ctx.check(len(st) == 2 and len(keys) == 2, so, 'fields and meta items copied under their own '
@@ -802,3 +810,57 @@ def c16_i(ctx):
               "skip if key in ['outputs', skip]; meta -> its items; else data[key] = val",
               'sample_object_to_dict does not skip exactly `outputs` and the named key, flatten '
               'the meta items and copy every other field', fn=so, node=st[0] if st else so.node)
+
+
+@obligation('C16-j', 'T14 T2', 'saving does not modify the sample: the json document owns every '
+            'mapping that the type conversion rewrites in place', floor=2,
+            necessary='the conversion replaces the arrays inside nested mappings by lists; if '
+                      'the document holds the sample\'s own `samples` mapping, the saved object '
+                      'is left with lists and its quantiles raise TypeError')
+def c16_j(ctx):
+    conv = ctx.fn('elfi.methods.utils:numpy_to_python_type')
+    exc = ctx.ex(conv)
+    p0 = conv.params[0]
+    nested = [n for n in own_nodes(conv.node) if isinstance(n, ast.Assign) and
+              isinstance(n.targets[0], ast.Subscript) and
+              isinstance(n.targets[0].value, ast.Subscript) and
+              exc.term(n.targets[0].value.value) == ('param', p0)]
+    # also: a local alias of a nested mapping that is then assigned into
+    nested += [n for n in own_nodes(conv.node) if isinstance(n, ast.Assign) and
+               isinstance(n.targets[0], ast.Subscript) and
+               isinstance(n.targets[0].value, ast.Name) and
+               exc.term(n.targets[0].value)[0] in ('item', 'elem') and
+               contains(exc.term(n.targets[0].value), ('param', p0))]
+    so = ctx.fn('elfi.methods.utils:sample_object_to_dict')
+    exs = ctx.ex(so)
+    stores = [n for n in own_nodes(so.node) if isinstance(n, ast.Assign) and
+              isinstance(n.targets[0], ast.Subscript) and
+              exs.term(n.targets[0].value) == ('param', 'data')]
+    if not stores:
+        raise AnchorMissing('sample_object_to_dict stores nothing into the document')
+    if not nested:
+        ctx.ok(conv, 'conversion builds new nested mappings', 'no in-place write into a nested '
+               'mapping of the document', fn=conv, node=conv.node)
+        for n in stores:
+            ctx.ok(so, 'document entry may be shared (nothing rewrites it in place)', src(n)[:60],
+                   fn=so, node=n)
+        return
+    ctx.fact('dict.copy() / OrderedDict.copy() return a new mapping with the same values')
+    for n in stores:
+        v = exs.term(n.value)
+        owned = False
+        for alt in (v[1] if v[0] == 'phi' else (v,)):
+            pass
+        # accepted: V.copy() if isinstance(V, dict) else V | copy.copy(V) | copy.deepcopy(V) |
+        # dict(V) if isinstance(V, dict) else V
+        m = match_any(v, ('_v.copy() if isinstance(_v, dict) else _v',
+                          'dict(_v) if isinstance(_v, dict) else _v',
+                          'OrderedDict(_v) if isinstance(_v, dict) else _v',
+                          'copy.copy(_v)', 'copy.deepcopy(_v)',
+                          '_v.copy() if isinstance(_v, (dict, OrderedDict)) else _v'))
+        owned = m is not None
+        ctx.check(owned, so, 'document entry is a copy when it is a mapping',
+                  'data[key] = val.copy() if isinstance(val, dict) else val',
+                  '`{}` puts the object\'s own value into the document, and {} rewrites nested '
+                  'mappings in place (`{}`): after save() the sample\'s `samples` hold lists'
+                  .format(src(n)[:50], conv.name, src(nested[0])[:50]), fn=so, node=n)
